@@ -191,3 +191,87 @@ pub fn read_source(src: &str) -> Result<SourceTables, String> {
     }
     Ok(st)
 }
+
+// ---------------------------------------------------------------------------------------------
+// textual view of the `scanner! { .. }` body
+// ---------------------------------------------------------------------------------------------
+
+#[derive(Debug, Clone, PartialEq)]
+pub struct ModeText {
+    pub name: String,
+    /// (pattern, lookahead (positive, pattern), token type)
+    pub tokens: Vec<(String, Option<(bool, String)>, usize)>,
+    /// (token type, "enter X" | "push X" | "pop")
+    pub on: Vec<(usize, String)>,
+}
+
+pub fn scanner_text(body: &proc_macro2::TokenStream) -> Result<Vec<ModeText>, String> {
+    use proc_macro2::TokenTree as TT;
+    let top: Vec<TT> = body.clone().into_iter().collect();
+    // Name { mode X { .. } mode Y { .. } }
+    let group = top.iter().find_map(|t| if let TT::Group(g) = t { Some(g.clone()) } else { None }).ok_or("no scanner group")?;
+    let inner: Vec<TT> = group.stream().into_iter().collect();
+    let mut modes = vec![];
+    let mut i = 0;
+    while i < inner.len() {
+        match &inner[i] {
+            TT::Ident(id) if id == "mode" => {
+                let name = inner.get(i + 1).map(|t| t.to_string()).ok_or("mode name")?;
+                let TT::Group(g) = inner.get(i + 2).ok_or("mode body")? else { return Err("mode body".into()) };
+                let body: Vec<TT> = g.stream().into_iter().collect();
+                let mut m = ModeText { name, tokens: vec![], on: vec![] };
+                // split at ';'
+                let mut stmt: Vec<TT> = vec![];
+                for t in body {
+                    if let TT::Punct(p) = &t {
+                        if p.as_char() == ';' {
+                            parse_stmt(&stmt, &mut m)?;
+                            stmt.clear();
+                            continue;
+                        }
+                    }
+                    stmt.push(t);
+                }
+                modes.push(m);
+                i += 3;
+            }
+            _ => i += 1,
+        }
+    }
+    Ok(modes)
+}
+
+fn lit_str(t: &proc_macro2::TokenTree) -> Result<String, String> {
+    let l: syn::LitStr = syn::parse_str(&t.to_string()).map_err(|e| format!("not a string literal {t}: {e}"))?;
+    Ok(l.value())
+}
+
+fn parse_stmt(s: &[proc_macro2::TokenTree], m: &mut ModeText) -> Result<(), String> {
+    if s.is_empty() {
+        return Ok(());
+    }
+    let words: Vec<String> = s.iter().map(|t| t.to_string()).collect();
+    match words[0].as_str() {
+        "token" => {
+            let pattern = lit_str(&s[1])?;
+            let mut la = None;
+            let mut j = 2;
+            if words.get(j).map(|w| w.as_str()) == Some("followed") {
+                la = Some((true, lit_str(&s[j + 2])?));
+                j += 3;
+            } else if words.get(j).map(|w| w.as_str()) == Some("not") {
+                la = Some((false, lit_str(&s[j + 3])?));
+                j += 4;
+            }
+            // => N
+            let n = words.get(j + 2).ok_or("token type")?.parse::<usize>().map_err(|e| e.to_string())?;
+            m.tokens.push((pattern, la, n));
+        }
+        "on" => {
+            let n = words[1].parse::<usize>().map_err(|e| e.to_string())?;
+            m.on.push((n, words[2..].join(" ")));
+        }
+        other => return Err(format!("unknown scanner statement {other}")),
+    }
+    Ok(())
+}
